@@ -215,7 +215,7 @@ theorem insertRule_valid (rules : List Rule) (rule : Rule) (index : Option Nat) 
             intro h0
             apply headFree_of_not_head0
             simpa [h0] using hc
-    | variables =>
+    | ns =>
       simp only at h
       cases inOrder with
       | true =>
@@ -263,6 +263,54 @@ theorem insertRule_valid (rules : List Rule) (rule : Rule) (index : Option Nat) 
             apply headFree_of_drop0_any rules (fun r => r.isCharset || r == .imp) (by intro e; rfl)
             simp only [h0, List.drop_zero] at hc
             simpa using hc
+    | variables =>
+      simp only at h
+      cases inOrder with
+      | true =>
+        simp only [if_true] at h
+        split at h
+        · rename_i k hk
+          simp only [Except.ok.injEq] at h; subst h
+          exact valid_insertAt rules k _ hv rfl (fun h0 => by have := afterLast_pos _ _ _ hk; omega)
+        · simp only [Except.ok.injEq] at h; subst h
+          refine valid_insertAt rules _ _ hv rfl ?_
+          intro h0
+          -- the place is 0 only in an empty sheet or when no @charset / @import precedes
+          cases hal : afterLast (fun r => r.isCharset || r == Rule.imp || r == Rule.ns) rules with
+          | some k0 =>
+            exfalso
+            have hk0 := afterLast_pos _ _ _ hal
+            rw [hal] at h0
+            simp only [Option.getD_some] at h0
+            split at h0
+            · rename_i j _
+              have h1 : k0 + j = 0 := h0
+              omega
+            · cases rules with
+              | nil => simp [afterLast] at hal
+              | cons a t => simp at h0
+          | none =>
+            have hall := afterLast_none _ _ hal
+            cases rules with
+            | nil => rfl
+            | cons a t =>
+              have := hall a List.mem_cons_self
+              cases a with
+              | charset e => simp [Rule.isCharset] at this
+              | _ => rfl
+      | false =>
+        simp only [Bool.false_eq_true, if_false] at h
+        split at h
+        · cases h
+        · rename_i hc
+          split at h
+          · cases h
+          · simp only [Except.ok.injEq] at h; subst h
+            refine valid_insertAt rules _ _ hv rfl ?_
+            intro h0
+            apply headFree_of_drop0_any rules (fun r => r.isCharset || r == .imp || r == .ns) (by intro e; rfl)
+            simp only [h0, List.drop_zero] at hc
+            simpa using hc
     | style =>
       simp only at h
       cases inOrder with
@@ -276,7 +324,7 @@ theorem insertRule_valid (rules : List Rule) (rule : Rule) (index : Option Nat) 
           simp only [Except.ok.injEq] at h; subst h
           refine valid_insertAt rules _ _ hv rfl ?_
           intro h0
-          apply headFree_of_drop0_any rules (fun r => r.isCharset || r == .imp || r == .variables) (by intro e; rfl)
+          apply headFree_of_drop0_any rules (fun r => r.isCharset || r == .imp || r == .ns || r == .variables) (by intro e; rfl)
           simp only [h0, List.drop_zero] at hc
           simpa using hc
 
@@ -391,9 +439,40 @@ theorem parseAll_valid : ∀ (src : List Rule) (exp : Nat) (acc rs : List Rule),
       split at h
       · cases h
       · exact ih _ _ _ h (valid_append acc _ hv rfl) (by intro h1; cases h1)
+    | ns =>
+      simp only [parseAll] at h
+      split at h
+      · cases h
+      · split at h
+        · cases h
+        · exact ih _ _ _ h (valid_append acc _ hv rfl) (by intro h1; cases h1)
     | style =>
       simp only [parseAll] at h
       exact ih _ _ _ h (valid_append acc _ hv rfl) (by intro h1; cases h1)
+
+theorem insertRuleTextCore_valid (pre : Bool) (rules src : List Rule) (idx : Nat) (inOrder : Bool) (r : InsRes)
+    (hv : Valid rules) (h : insertRuleTextCore pre rules src idx inOrder = .ok r) : Valid r.rules := by
+  unfold insertRuleTextCore at h
+  cases hp : setCssText (if pre = true then rules.take 1 ++ src else src) with
+  | error e => rw [hp] at h; cases h
+  | ok rs =>
+    rw [hp] at h
+    simp only at h
+    by_cases hl : rs.length ≠ (if pre = true then 2 else 1)
+    · rw [if_pos hl] at h; cases h
+    · rw [if_neg hl] at h
+      cases hr : rs[if pre = true then 1 else 0]? with
+      | none => rw [hr] at h; cases h
+      | some r0 => rw [hr] at h; exact insertRule_valid rules r0 _ inOrder r hv h
+
+theorem insertRuleText_valid (rules src : List Rule) (index : Option Nat) (inOrder : Bool) (r : InsRes)
+    (hv : Valid rules) (h : insertRuleText rules src index inOrder = .ok r) : Valid r.rules := by
+  unfold insertRuleText at h
+  simp only at h
+  by_cases hidx : index.getD rules.length > rules.length
+  · rw [if_pos hidx] at h; cases h
+  · rw [if_neg hidx] at h
+    exact insertRuleTextCore_valid _ rules src _ inOrder r hv h
 
 theorem applyOp_valid (valid : Name → Bool) (rules rs : List Rule) (op : Op) (hv : Valid rules)
     (h : applyOp valid rules op = .ok rs) : Valid rs := by
@@ -405,6 +484,13 @@ theorem applyOp_valid (valid : Name → Bool) (rules rs : List Rule) (op : Op) (
     · rename_i x hx
       simp only [Except.ok.injEq] at h; subst h
       exact insertRule_valid rules r i o x hv hx
+    · cases h
+  | insertText src i o =>
+    simp only [applyOp] at h
+    split at h
+    · rename_i x hx
+      simp only [Except.ok.injEq] at h; subst h
+      exact insertRuleText_valid rules src i o x hv hx
     · cases h
   | insertCharsetNamed n i o =>
     simp only [applyOp] at h
@@ -457,6 +543,7 @@ theorem find_charset_of_valid (rs : List Rule) (hv : Valid rs) :
     | unknown => simp [List.find?, Rule.isCharset, find_noCharset t hv]
     | imp => simp [List.find?, Rule.isCharset, find_noCharset t hv]
     | variables => simp [List.find?, Rule.isCharset, find_noCharset t hv]
+    | ns => simp [List.find?, Rule.isCharset, find_noCharset t hv]
     | style => simp [List.find?, Rule.isCharset, find_noCharset t hv]
 
 end CssVerif.EncSheet
